@@ -1001,6 +1001,6 @@ Proof.
       apply au_take_some in T as (_ & x & wr & N & R). rewrite Nat.sub_0_r in N. rewrite N in H.
       destruct (au_explain fuel (cset_nth ws i wr) rest) as [sch'|] eqn:E; [|discriminate].
       inversion H; subst sch. rewrite (au_run_step i sch' log0 ws x wr N).
-      destruct (IH _ _ _ E (log0 ++ au_frame x)) as [A B]. split; auto.
-      rewrite A, R, app_assoc. reflexivity.
+      destruct (IH _ _ _ E (log0 ++ au_frame x)) as [A B]. split; [|exact B].
+      rewrite R, app_assoc. exact A.
 Qed.
